@@ -18,6 +18,8 @@ type World struct {
 	smt  *SMT
 	eff  *Effects
 	res  []*FuncResult
+
+	retAlias map[string]bool // functions whose result may alias a slice argument (frame.noretain)
 }
 
 func loadWorld(repo string) (*World, error) {
